@@ -117,6 +117,13 @@ def contains(I, cont, x):
         if isinstance(x, VStr):
             return z3.Or([x.e == z3.StringVal(k) for k in cont.fields] + [z3.BoolVal(False)])
         return z3.BoolVal(False)
+    if isinstance(cont, VRec) and getattr(cont.t, "dictlike", False):
+        c = const_of(x) if isinstance(x, VStr) else _NOCONST
+        if isinstance(c, str):
+            if c not in cont.fields:
+                return z3.BoolVal(False)
+            return z3.Not(cont.fields[c].is_none()) if c in cont.t.optkeys else z3.BoolVal(True)
+        raise Unsupported("symbolic key membership in a dict-shaped record")
     if isinstance(cont, VSeq):
         i = z3.Int(I.path.fresh_name("in_i"))
         el = cont.et.wrap(z3.Select(cont.arr, i))
@@ -191,6 +198,17 @@ def subscript(I, o, k):
                 return o.fields[c]
             I.raise_exc("KeyError", c)
         raise Unsupported("symbolic key into literal dict")
+    if isinstance(o, VRec) and getattr(o.t, "dictlike", False):
+        c = const_of(k) if isinstance(k, VStr) else _NOCONST
+        if not isinstance(c, str):
+            raise Unsupported("symbolic key into a dict-shaped record")
+        if c not in o.fields:
+            I.raise_exc("KeyError", c)
+        if c in o.t.optkeys:
+            f = o.fields[c]
+            I.require_defined(z3.Not(f.is_none()), "KeyError", c)
+            return f.val()
+        return o.fields[c]
     if isinstance(o, VStr):
         idx = to_int(k)
         n = z3.Length(o.e)
@@ -308,6 +326,8 @@ def set_add(I, s, kk):
 def store_subscript(I, o, k, v):
     o = I.force(o)
     k = I.force(k)
+    if isinstance(o, VRec) and getattr(o.t, "dictlike", False):
+        raise Unsupported("mutation of a dict-shaped record (%s)" % o.t.nm)
     if isinstance(o, VMap):
         kk = unwrap(k, o.kt)
         map_store(I, o, kk, v)
@@ -421,6 +441,11 @@ def get_attribute(I, o, name, default=_NOCONST):
                 return I.ev(ci.attrs[name], Env(None, ci.module))
         if name == "__dict__":
             return VDictRec(o.fields)
+    elif isinstance(o, VRec) and getattr(o.t, "dictlike", False):
+        if name == "get":
+            return VFunc("bmethod", name, selfv=o)
+        if name in MAP_METHODS:
+            raise Unsupported("dict method %s on a dict-shaped record" % name)
     elif isinstance(o, VRec):
         if name in o.fields:
             return o.fields[name]
@@ -886,6 +911,8 @@ def _isinst(I, v, nm):
     if isinstance(v, (VSet, VEmptySet)):
         return nm in ("set",)
     if isinstance(v, VRec):
+        if getattr(v.t, "dictlike", False):
+            return nm in ("dict", "Mapping", "MutableMapping")
         return nm == v.t.nm
     if isinstance(v, VObj):
         ci = I.class_of(v)
@@ -1294,6 +1321,26 @@ def call_bmethod(I, o, name, args, kw):
         return map_method(I, o, name, args, kw)
     if isinstance(o, VDictRec):
         return dictrec_method(I, o, name, args, kw)
+    if isinstance(o, VRec) and name == "get":
+        c = const_of(args[0]) if isinstance(args[0], VStr) else _NOCONST
+        if not isinstance(c, str):
+            raise Unsupported("symbolic key lookup in a dict-shaped record")
+        default = args[1] if len(args) > 1 else kw.get("default", VNone())
+        if c not in o.fields:
+            return default
+        if c not in o.t.optkeys:
+            return o.fields[c]
+        f = o.fields[c]
+        if isinstance(default, VNone):
+            return f
+        try:
+            return I.ite(z3.Not(f.is_none()), f.val(), default)
+        except (Unsupported, TypeError):
+            if I.spec:
+                raise Unsupported("dict.get with incompatible default in spec")
+            if I.path.branch(z3.Not(f.is_none())):
+                return f.val()
+            return default
     if isinstance(o, (VSet, VEmptySet)):
         return set_method(I, o, name, args, kw)
     if isinstance(o, VStr):
